@@ -198,7 +198,7 @@ pub fn step(st: &mut St, backend: &str, toks: &[&str]) -> String {
             let Some(h) = num(slot).and_then(|s| st.hashers.get_mut(&s)) else {
                 return "bad-op".into();
             };
-            let chunk = pat_bytes(sd, 1 << 20);
+            let chunk = pat_bytes(sd, crate::util::BIG_PERIOD);
             let mut big = Vec::with_capacity(n as usize);
             while big.len() < n as usize {
                 let k = (n as usize - big.len()).min(chunk.len());
@@ -213,7 +213,7 @@ pub fn step(st: &mut St, backend: &str, toks: &[&str]) -> String {
             let Some(h) = num(slot).and_then(|s| st.hashers.get_mut(&s)) else {
                 return "bad-op".into();
             };
-            let chunk = pat_bytes(sd, 1 << 20);
+            let chunk = pat_bytes(sd, crate::util::BIG_PERIOD);
             let mut left = n as usize;
             while left > 0 {
                 let k = left.min(chunk.len());
